@@ -88,6 +88,8 @@ def sliced(member, chain):
             return False
         name = a.get('m')
         args = a.get('args', [])
+        if name == 'data':
+            return None              # a raw pointer into the buffer: the rows it reaches are decided by pointer arithmetic this rule does not follow
         if name in ('head', 'topRows') and len(args) == 1:
             return True if is_datasize(args[0]) else None
         if name == 'segment' and len(args) == 2:
@@ -643,7 +645,7 @@ def check_instance(fx, R, cq, cname):
     from .. import lsmodel, sym, alg
     getj = [g for g in fx.fn(cq + '::getJ') if not g.get('const')]
     escapes = any('&' in (g.get('sig') or '').split('(')[0] for g in getj)
-    for (data, est, tag) in ((3, 2, '3 rows of 5'), (2, 2, 'square: 2 rows of 5'), (192, 1, 'block sizes: 192 rows (a multiple of 8, 16, 32 and 64) of 200'),
+    for (data, est, tag) in ((3, 2, '3 rows of 5'), (2, 2, 'square: 2 rows of 5'), (3, 1, 'one parameter: 3 rows of 5'), (192, 1, 'block sizes: 192 rows (a multiple of 8, 16, 32 and 64) of 200'),
                              (131, 1, 'remainder rows: 131 rows (a prime: no block size divides it) of 200')):
         inst = lsmodel.Instance(data=data, est=est, rows=200 if data >= 100 else lsmodel.ROWS)
         J3, Y3, W3 = inst.cur()
